@@ -3,6 +3,8 @@ package drv
 import (
 	"context"
 	"fmt"
+
+	"github.com/Flowpack/prunner/store"
 	"math/rand"
 	"reflect"
 	"sort"
@@ -16,11 +18,12 @@ import (
 
 // ShutdownOpts selects one shutdown scenario (C11)
 type ShutdownOpts struct {
-	Forced     bool
-	SlowSave   bool // the store's Save takes 0-2 ms, a saver client keeps saves in flight
-	Clients    bool // schedule / cancel / save clients race with the shutdown
-	HTTP       bool
-	Watchdog   time.Duration
+	Forced   bool
+	SlowSave bool // the store's Save takes 0-2 ms, a saver client keeps saves in flight
+	Clients  bool // schedule / cancel / save clients race with the shutdown
+	HTTP     bool
+	NoStore  bool // the runner is used without a store (no persistence): Shutdown must still return
+	Watchdog time.Duration
 }
 
 type jobAtBegin struct {
@@ -63,7 +66,11 @@ func RunShutdownCase(seed int64, o ShutdownOpts) *HistResult {
 	if o.SlowSave {
 		rec.Delay = time.Duration(200+r.Intn(1800)) * time.Microsecond
 	}
-	sys, err := core.NewSys(gen.BuildDefs(specs), rec, core.NewMemOutputStore())
+	var st store.DataStore = rec
+	if o.NoStore {
+		st = nil
+	}
+	sys, err := core.NewSys(gen.BuildDefs(specs), st, core.NewMemOutputStore())
 	if err != nil {
 		res.Inconclusive = err.Error()
 		return res
@@ -129,10 +136,10 @@ func RunShutdownCase(seed int64, o ShutdownOpts) *HistResult {
 	var stopClients atomic.Bool
 	var wg sync.WaitGroup
 	type schedRes struct {
-		id       string
-		cls      string
-		callSeq  int64
-		retSeq   int64
+		id      string
+		cls     string
+		callSeq int64
+		retSeq  int64
 	}
 	var srMu sync.Mutex
 	var scheduled []schedRes
@@ -298,7 +305,9 @@ func RunShutdownCase(seed int64, o ShutdownOpts) *HistResult {
 	}
 	// the store holds exactly the final reported state
 	saves := rec.Saves()
-	if len(saves) == 0 {
+	if o.NoStore {
+		res.sit("C11", "shutdown without a store")
+	} else if len(saves) == 0 {
 		find("C11:no-final-save", "nothing was saved by Shutdown")
 	} else {
 		last := saves[len(saves)-1]
